@@ -356,16 +356,28 @@ class MultiValue(Object):
     def attr_list(self, ctx):
         # type: (EvalCtx) -> AttrList
         result: set[str] = set()
-        for v in self.get_rvalues(ctx):
-            result.update(v.attr_list(ctx))
+        if self in ctx.nodes:  # attributes assigned from each other: self.a = self.b; self.b = self.a
+            return result
+        ctx.nodes.add(self)
+        try:
+            for v in self.get_rvalues(ctx):
+                result.update(v.attr_list(ctx))
+        finally:
+            ctx.nodes.discard(self)
         return result
 
     def get_attr(self, ctx, name):
         # type: (EvalCtx, str) -> Object | Name | None
-        for v in self.get_rvalues(ctx):
-            result = v.get_attr(ctx, name)
-            if result is not None:
-                return result
+        if self in ctx.nodes:
+            return None
+        ctx.nodes.add(self)
+        try:
+            for v in self.get_rvalues(ctx):
+                result = v.get_attr(ctx, name)
+                if result is not None:
+                    return result
+        finally:
+            ctx.nodes.discard(self)
         return None
 
 
